@@ -8,14 +8,34 @@
                             previous token, and the cursor ends at End — so the tokens a handler collects are, in order,
                             consecutive exact slices of the input from the recovery point on
     `recovery_progress`     every recovery step except at end of input advances the cursor (handlers terminate)
-  Not proved yet (partial): `noPanic_agrees` (on lexically clean text both modes return the same tokens) and the
-  handler-level statement `bad_tokens_exact` (NodePos/NodeEnd/Tokens of each of the four handlers, incl. the `>>` split);
-  they are evaluated on the implementation by the C10 predicate (every BadNode of every explored tree) and the
-  recovery-mode lexer is tied to the Go code by the LEX channel in mode `n`.
+  Proved here (handler side; the four handlers are modelled in `MF.Model.Handlers` and tied to parser.go by the HANDLER
+  channel through the hook `VerifRecover`):
+    `noPanic_agrees`        on text where panic-mode lexing succeeds the two lexer modes return the SAME state
+    `recovery_enumerates`   hence iterating recovery-mode `nextToken` over a lexically clean buffer enumerates `lexAll buf`
+    `bad_tokens_exact`      every handler, from every restored lexer state satisfying the lexer invariant, terminates within
+                            `len - l.pos + 2` iterations and returns: Tokens = the recovery-mode token stream from `l` up to
+                            (not including) the first stop token, each an exact slice of the input, consecutive with only
+                            trivia in between, the first being the restored current token; NodePos = its Pos; NodeEnd = End of
+                            the last collected token (NodePos when none); the lexer left on the stop token
+    `bad_tokens_clean`      on a lexically clean range those tokens are the panic-mode tokens
+    `split_gt`              the `>>` split: exactly when the type handler stops on `>>` with nesting 1 the current token becomes
+                            `>` with Pos one past the original (End, Raw, cursor unchanged)
+    `restored_inv`          the states the hook hands to the handlers (and any state produced by the lexer) satisfy the invariant
+    `bad_sql_shape`         `BadNode.SQL()` (modelled from ast/sql.go, `Handlers.badSQL`) writes the Raws of the collected
+                            tokens in order and has nothing between two consecutive ones exactly when the input had nothing
+                            between them (it never glues tokens that a blank or a comment separated, never separates glued ones)
+    `bad_sql_slice_partial` without comments and with canonical blanks `SQL()` is literally `input[NodePos:NodeEnd]`
+  Not proved (stretch): `bad_sql_relex` (re-lexing `SQL()` yields the same spellings).  It is FALSE without a hypothesis on
+  the lexer context of the restored state: after an identifier-like token a leading `.` is lexed as a selector dot and the
+  next token as a field name (`THEN RETURN .5` gives the Bad node `.` `5`, whose `SQL()` `.5` is one float).  With that
+  hypothesis it needs a lookahead-locality lemma for every token scanner, which the project does not have; `badSQL` is
+  compared with ast/sql.go on every request of the HANDLER channel, and the C10 predicate re-lexes `SQL()` on the implementation.
 -/
 import MF.Proofs.LexErr
+import MF.Proofs.LexModes
+import MF.Proofs.Handlers
 namespace MF.Props.C10
-open MF MF.Lex
+open MF MF.Lex MF.Handlers
 
 theorem recovery_step_total {buf : Bytes} {s : State} (hp : s.pos ≤ buf.length) :
     ∃ s', nextToken buf true s = .ok s' := noPanic_total hp
@@ -30,5 +50,54 @@ theorem recovery_progress {buf : Bytes} {s s' : State} (h : nextToken buf true s
 /-- non-vacuity: an unclosed literal and an unclosed comment become <bad> tokens spanning them -/
 example : ∃ s', nextToken (B "a 'x") true { Lex.init with pos := 1 } = .ok s' ∧ s'.tok.kind = .bad ∧ s'.tok.raw = B "'x" := ⟨_, rfl, rfl, rfl⟩
 example : ∃ s', nextToken (B "a /* x") true { Lex.init with pos := 1 } = .ok s' ∧ s'.tok.kind = .bad ∧ s'.tok.raw = B "/* x" := ⟨_, rfl, rfl, rfl⟩
+
+/-- I1 -/
+theorem noPanic_agrees {buf : Bytes} {s s' : State} (h : nextToken buf false s = .ok s') :
+    nextToken buf true s = .ok s' := Lex.noPanic_agrees h
+
+theorem recovery_enumerates {buf : Bytes} {ts : List Token} (h : lexAll buf = .ok ts) : recAll buf = .ok ts :=
+  recAll_clean h
+
+/-- I4 (a)–(e), for each handler `h ∈ {statement, query simple, expr, type}`; the fields of `BadExact` are the five claims -/
+theorem bad_tokens_exact {buf : Bytes} (h : HKind) {l : State}
+    (inv : l.tok.end = l.pos ∧ l.pos ≤ buf.length ∧ l.tok.raw = slice buf l.tok.pos l.tok.end) :
+    ∃ o, handler buf h l = .ok o ∧ BadExact buf h l o :=
+  Handlers.bad_tokens_exact h ⟨inv.1, inv.2.1, inv.2.2⟩
+
+theorem bad_tokens_clean {buf : Bytes} {h : HKind} {l : State} {o : Out} (ex : BadExact buf h l o) {sk : State}
+    (hclean : panState buf o.tokens.length l = some sk) :
+    o.tokens = panToks buf o.tokens.length l ∧ ∃ m, runNest h 0 o.tokens = some m ∧ o.final = finalOf h m sk :=
+  Handlers.bad_tokens_clean ex hclean
+
+theorem split_gt {h : HKind} {m : Nat} {sk : State} :
+    (h = .type ∧ sk.tok.kind = K ">>" ∧ m = 1 →
+      (finalOf h m sk).tok = { sk.tok with kind := K ">", pos := sk.tok.pos + 1 } ∧
+      (finalOf h m sk).pos = sk.pos ∧ (finalOf h m sk).lastKind = sk.lastKind ∧ (finalOf h m sk).dotIdent = sk.dotIdent) ∧
+    (¬(h = .type ∧ sk.tok.kind = K ">>" ∧ m = 1) → finalOf h m sk = sk) := Handlers.split_gt
+
+theorem bad_sql_shape {buf : Bytes} {h : HKind} {l : State} {o : Out} (ex : BadExact buf h l o)
+    {pre post : List Token} {t t' : Token} (hsplit : o.tokens = pre ++ t :: t' :: post) (ht : t.raw ≠ []) :
+    badSQL (pre ++ [t, t']) = badSQL (pre ++ [t]) ++ gap (badSQL (pre ++ [t])) t' ++ t'.raw ∧
+    (gap (badSQL (pre ++ [t])) t' = [] ↔ t'.pos = t.end) := Handlers.bad_sql_shape ex hsplit ht
+
+/-- partial: hypotheses added — no collected token has comments, every one after the first is preceded by nothing or one
+blank, the first is not empty; conclusion — `SQL()` is the input slice itself (so its re-lexing is that of the slice) -/
+theorem bad_sql_slice_partial {buf : Bytes} {h : HKind} {l : State} {o : Out} (inv : LexInv buf l) (ex : BadExact buf h l o)
+    (hl : l.tok.pos < l.tok.end) (hcm : ∀ t ∈ o.tokens, t.comments = [])
+    (hsp : ∀ t ∈ o.tokens.tail, t.space = [] ∨ t.space = [32]) :
+    badSQL o.tokens = slice buf o.nodePos o.nodeEnd := Handlers.bad_sql_slice_partial inv ex hl hcm hsp
+
+theorem restored_inv {buf : Bytes} {k : Nat} {l : State} (h : advance buf k Lex.init = some l) : LexInv buf l :=
+  advance_inv (LexInv.init buf) h
+
+/-- non-vacuity: `ARRAY<STRUCT<a b>> x` with the type handler started at the inner `<` (the 4th token): `< a b` are
+collected and the `>>` is split; the statement handler started at `(` takes everything up to `;` -/
+example : ∃ l o, advance (B "ARRAY<STRUCT<a b>> x") 4 Lex.init = some l ∧ handler (B "ARRAY<STRUCT<a b>> x") .type l = .ok o ∧
+    o.tokens.map (·.raw) = [B "<", B "a", B "b"] ∧ o.nodePos = 12 ∧ o.nodeEnd = 16 ∧
+    o.final.tok.kind = K ">" ∧ o.final.tok.pos = 17 ∧ o.final.tok.end = 18 ∧ o.final.tok.raw = B ">>" :=
+  ⟨_, _, rfl, rfl, by decide⟩
+example : ∃ l o, advance (B "a (b; c") 2 Lex.init = some l ∧ handler (B "a (b; c") .statement l = .ok o ∧
+    o.tokens.map (·.raw) = [B "(", B "b"] ∧ o.nodePos = 2 ∧ o.nodeEnd = 4 ∧ o.final.tok.kind = K ";" :=
+  ⟨_, _, rfl, rfl, by decide⟩
 
 end MF.Props.C10
